@@ -354,6 +354,23 @@ theorem initVars_preserve (fbs : List FbDef) (id : Nat) (vars : List VarDef) :
       intro m hm
       simp only [List.map_cons, List.mem_cons, not_or] at hm
       exact h5 m hm.2
+    | expr ty e =>
+      simp only [hd] at h
+      cases he : e.eval s id with
+      | none => simp [he] at h
+      | some k =>
+        simp only [he] at h
+        obtain ⟨h1, h2, h3, h4, h5, h6⟩ := ih _ _ h (by simpa using hid)
+        refine ⟨by simp [h1], by simp [h2], by simpa using h3, ?_, ?_, ?_⟩
+        · intro j hj hne
+          rw [h4 j (by simpa using hj) hne, getInstance_setInstVar]
+          simp [hne]
+        · intro m hm
+          simp only [List.map_cons, List.mem_cons, not_or] at hm
+          rw [h5 m hm.2, getInstVar_setInstVar_other]
+          exact Or.inr (fun e => hm.1 e.symm)
+        · intro hs
+          exact h6 (by rw [isSome_getInstance_setInstVar]; exact hs)
     | fb ty =>
       simp only [hd] at h
       cases hc : createFbInstance fbs s ty with
@@ -384,6 +401,7 @@ theorem initVars_content (fbs : List FbDef) (id : Nat) (vars : List VarDef) :
         match d.init with
         | .plain v => s'.getInstVar id d.name = some v
         | .ext => True
+        | .expr ty _ => ∃ k, s'.getInstVar id d.name = some (.num ty k)
         | .fb ty => ∃ j fb, s'.getInstVar id d.name = some (.inst j) ∧ s.nextId ≤ j ∧ j < s'.nextId ∧
             j ≠ id ∧ findFb fbs ty = some fb ∧
             s'.getInstance j = some { tyName := fb.name, vars := membersMap [] fb.members } := by
@@ -408,6 +426,20 @@ theorem initVars_content (fbs : List FbDef) (id : Nat) (vars : List VarDef) :
       rcases List.mem_cons.1 hd with rfl | hmem
       · simp [hd0]
       · exact ih _ _ h hid hsome hnd.2 d hmem
+    | expr ty e =>
+      simp only [hd0] at h
+      cases he : e.eval s id with
+      | none => simp [he] at h
+      | some k =>
+        simp only [he] at h
+        have hpres := initVars_preserve fbs id rest _ _ h (by simpa using hid)
+        rcases List.mem_cons.1 hd with rfl | hmem
+        · simp only [hd0]
+          refine ⟨k, ?_⟩
+          rw [hpres.2.2.2.2.1 _ hnd.1]
+          exact getInstVar_setInstVar_same _ _ _ _ hsome
+        · have := ih _ _ h (by simpa using hid) (by rw [isSome_getInstance_setInstVar]; exact hsome) hnd.2 d hmem
+          simpa using this
     | fb ty =>
       simp only [hd0] at h
       cases hc : createFbInstance fbs s ty with
@@ -433,6 +465,7 @@ theorem initVars_content (fbs : List FbDef) (id : Nat) (vars : List VarDef) :
           cases hdi : d.init with
           | plain v => simpa [hdi] using this
           | ext => trivial
+          | expr ty' e' => simpa [hdi] using this
           | fb ty' =>
             simp only [hdi] at this ⊢
             obtain ⟨j, fb', a1, a2, a3, a4, a5, a6⟩ := this
@@ -446,6 +479,7 @@ theorem createProgramInstance_spec (fbs : List FbDef) (s s' : Storage) (p : Prog
       match d.init with
       | .plain v => s'.getInstVar id d.name = some v
       | .ext => True
+      | .expr ty _ => ∃ k, s'.getInstVar id d.name = some (.num ty k)
       | .fb ty => ∃ j fb, s'.getInstVar id d.name = some (.inst j) ∧ s.nextId < j ∧ j < s'.nextId ∧
           findFb fbs ty = some fb ∧
           s'.getInstance j = some { tyName := fb.name, vars := membersMap [] fb.members } := by
@@ -475,6 +509,7 @@ theorem createProgramInstance_spec (fbs : List FbDef) (s s' : Storage) (p : Prog
       cases hdi : d.init with
       | plain v => simpa [hdi] using this
       | ext => trivial
+      | expr ty e => simpa [hdi] using this
       | fb ty =>
         simp only [hdi] at this ⊢
         obtain ⟨j, fb, a1, a2, a3, a4, a5, a6⟩ := this
@@ -656,6 +691,7 @@ def ProgPost (fbs : List FbDef) (s s' : Storage) (p : ProgDef) (id : Nat) : Prop
     match d.init with
     | .plain v => s'.getInstVar id d.name = some v
     | .ext => True
+    | .expr ty _ => ∃ k, s'.getInstVar id d.name = some (.num ty k)
     | .fb ty => ∃ j fb, s'.getInstVar id d.name = some (.inst j) ∧ s.nextId ≤ j ∧ j < s'.nextId ∧
         findFb fbs ty = some fb ∧
         s'.getInstance j = some { tyName := fb.name, vars := membersMap [] fb.members }
@@ -669,6 +705,7 @@ theorem ProgPost.weaken {fbs : List FbDef} {s0 s s' : Storage} {p : ProgDef} {id
   cases hi : d.init with
   | plain v => simpa [hi] using this
   | ext => trivial
+  | expr ty e => simpa [hi] using this
   | fb ty =>
     simp only [hi] at this ⊢
     obtain ⟨j, fb, b1, b2, b3, b4, b5⟩ := this
@@ -717,6 +754,10 @@ theorem recreatePrograms_spec (fbs : List FbDef) (ps : List ProgDef) :
               simp only [hi] at this ⊢
               rw [t1.getInstVar id0 d.name (by simp; omega)]; simpa using this
             | ext => trivial
+            | expr ty e =>
+              simp only [hi] at this ⊢
+              obtain ⟨k, hk⟩ := this
+              exact ⟨k, by rw [t1.getInstVar id0 d.name (by simp; omega)]; simpa using hk⟩
             | fb ty =>
               simp only [hi] at this ⊢
               obtain ⟨j, fb, b1, b2, b3, b4, b5⟩ := this
@@ -1399,6 +1440,7 @@ def expP (fbs : List FbDef) (d : VarDef) (member : Option Nat) : Option Val :=
   | .plain v, none => some (obsVal v)
   | .plain _, some _ => none
   | .ext, _ => none
+  | .expr _ _, _ => none
   | .fb _, none => some (.inst 0)
   | .fb ty, some k =>
     match findFb fbs ty with
@@ -1409,8 +1451,12 @@ def GInit.plainOk : GInit → Bool
   | .value v => !v.isInst
   | .fb _ => true
 
+/-- Constant initialisers only: an initialiser EXPRESSION (`.expr`) has no value that the
+declarations alone determine; what a restart does with it is `restart_expr_var` /
+`c09_expr_init_after_restart`. -/
 def VInit.plainOk : VInit → Bool
   | .plain v => !v.isInst
+  | .expr _ _ => false
   | _ => true
 
 /-- Initial values are values, not instance handles (the compiler never produces such a
@@ -1480,6 +1526,7 @@ theorem cold_paths (fbs : List FbDef) (metas : List GlobalMeta) (progs : List Pr
         simp only
         exact obs_member_of_not_inst s2 v k (by have := hpl.vars p hpp d hd; simpa [hi, VInit.plainOk] using this)
     | ext => exact absurd hi hne
+    | expr ty e => exact absurd (hpl.vars p hpp d hd) (by simp [hi, VInit.plainOk])
     | fb ty =>
       simp only [hi] at post
       obtain ⟨j, fb, a1, a2, a3, a4, a5⟩ := post
@@ -2059,5 +2106,159 @@ def fresh9 : Option ((Nat × Nat × Nat) × Option Nat × List Nat) :=
     ((r.io.inputs.length, r.io.outputs.length, r.io.memory.length), c.driver.bind (·.seenIn), c.io.outputs)
 
 end W
+
+/-! ### Initialiser expressions -/
+
+/-- No reference to a variable of the instance being initialised. -/
+def IExpr.closed : IExpr → Bool
+  | .loc _ => false
+  | .add a b => a.closed && b.closed
+  | .mul a b => a.closed && b.closed
+  | _ => true
+
+/-- A closed expression reads the globals only. -/
+theorem IExpr.eval_congr (e : IExpr) (s s' : Storage) (id id' : Nat) (hc : e.closed = true)
+    (hg : s'.globals = s.globals) : e.eval s' id' = e.eval s id := by
+  induction e with
+  | lit k => rfl
+  | glob n => simp [IExpr.eval, Storage.getGlobal, hg]
+  | loc n => simp [IExpr.closed] at hc
+  | add a b iha ihb =>
+    simp only [IExpr.closed, Bool.and_eq_true] at hc
+    simp [IExpr.eval, iha hc.1, ihb hc.2]
+  | mul a b iha ihb =>
+    simp only [IExpr.closed, Bool.and_eq_true] at hc
+    simp [IExpr.eval, iha hc.1, ihb hc.2]
+
+/-- `init_var_defaults` evaluates a closed initialiser expression over the globals of the storage
+it starts from, and the variable keeps that value (coerced to its declared type). -/
+theorem initVars_expr (fbs : List FbDef) (id : Nat) (vars : List VarDef) :
+    ∀ (s s' : Storage), initVars fbs s id vars = .ok s' → id < s.nextId →
+      (s.getInstance id).isSome → (vars.map (·.name)).Nodup →
+      ∀ d, d ∈ vars → ∀ ty e, d.init = .expr ty e → e.closed = true →
+        ∃ k, e.eval s 0 = some k ∧ s'.getInstVar id d.name = some (.num ty k) := by
+  induction vars with
+  | nil => intro s s' _ _ _ _ d hd; cases hd
+  | cons d0 rest ih =>
+    intro s s' h hid hsome hnd d hd ty e hi hc
+    simp only [List.map_cons, List.nodup_cons] at hnd
+    simp only [initVars] at h
+    cases hd0 : d0.init with
+    | plain v =>
+      simp only [hd0] at h
+      rcases List.mem_cons.1 hd with rfl | hmem
+      · rw [hd0] at hi; cases hi
+      · obtain ⟨k, h1, h2⟩ := ih _ _ h (by simpa using hid)
+          (by rw [isSome_getInstance_setInstVar]; exact hsome) hnd.2 d hmem ty e hi hc
+        exact ⟨k, by rw [← h1]; exact (IExpr.eval_congr e _ _ 0 0 hc (by simp)).symm, h2⟩
+    | ext =>
+      simp only [hd0] at h
+      rcases List.mem_cons.1 hd with rfl | hmem
+      · rw [hd0] at hi; cases hi
+      · exact ih _ _ h hid hsome hnd.2 d hmem ty e hi hc
+    | expr ty0 e0 =>
+      simp only [hd0] at h
+      cases he : e0.eval s id with
+      | none => simp [he] at h
+      | some k0 =>
+        simp only [he] at h
+        have hpres := initVars_preserve fbs id rest _ _ h (by simpa using hid)
+        rcases List.mem_cons.1 hd with rfl | hmem
+        · rw [hd0] at hi
+          injection hi with e1 e2
+          subst e1; subst e2
+          refine ⟨k0, ?_, ?_⟩
+          · rw [← he]; exact (IExpr.eval_congr _ s s 0 id hc rfl).symm
+          · rw [hpres.2.2.2.2.1 _ hnd.1]
+            exact getInstVar_setInstVar_same _ _ _ _ hsome
+        · obtain ⟨k, h1, h2⟩ := ih _ _ h (by simpa using hid)
+            (by rw [isSome_getInstance_setInstVar]; exact hsome) hnd.2 d hmem ty e hi hc
+          exact ⟨k, by rw [← h1]; exact (IExpr.eval_congr e _ _ 0 0 hc (by simp)).symm, h2⟩
+    | fb tyf =>
+      simp only [hd0] at h
+      cases hcr : createFbInstance fbs s tyf with
+      | error e => simp [hcr] at h
+      | ok r =>
+        obtain ⟨s1, nid⟩ := r
+        simp only [hcr] at h
+        obtain ⟨fb, hfind, hnid, hnext, hext, hinst⟩ := createFbInstance_spec fbs s s1 tyf nid hcr
+        rcases List.mem_cons.1 hd with rfl | hmem
+        · rw [hd0] at hi; cases hi
+        · obtain ⟨k, h1, h2⟩ := ih _ _ h (by simp; omega)
+            (by rw [isSome_getInstance_setInstVar, hext.old id hid]; exact hsome) hnd.2 d hmem ty e hi hc
+          exact ⟨k, by rw [← h1]; exact (IExpr.eval_congr e _ _ 0 0 hc (by simp [hext.globals])).symm, h2⟩
+
+/-- `create_program_instance`: every closed initialiser expression is evaluated over the globals
+of the storage the instance is created in. -/
+theorem createProgramInstance_expr (fbs : List FbDef) (s s' : Storage) (p : ProgDef) (id : Nat)
+    (h : createProgramInstance fbs s p = .ok (s', id)) (hnd : (p.vars.map (·.name)).Nodup)
+    (d : VarDef) (hd : d ∈ p.vars) (ty : Nat) (e : IExpr) (hi : d.init = .expr ty e)
+    (hc : e.closed = true) :
+    ∃ k, e.eval s 0 = some k ∧ s'.getInstVar id d.name = some (.num ty k) := by
+  unfold createProgramInstance at h
+  simp only [id_createInstance] at h
+  cases hiv : initVars fbs (s.createInstance p.name).1 s.nextId p.vars with
+  | error e => rw [hiv] at h; cases h
+  | ok s2 =>
+    rw [hiv] at h
+    dsimp only at h
+    injection h with h
+    injection h with h1 h2
+    subst h1; subst h2
+    obtain ⟨k, a, b⟩ := initVars_expr fbs s.nextId p.vars _ _ hiv (by simp)
+      (by rw [getInstance_createInstance]; simp) hnd d hd ty e hi hc
+    exact ⟨k, by rw [← a]; exact (IExpr.eval_congr e _ _ 0 0 hc (by simp)).symm, b⟩
+
+
+/-! ### The restart signal: no request is lost -/
+
+/-- The newest request still in the pipeline (a blocked requester, the slot, the request being
+carried out), else the restart carried out last. -/
+def SigSt.newest (s : SigSt) : Option Mode :=
+  match s.blocked with
+  | some b => some b
+  | none =>
+    match s.slot with
+    | some m => some m
+    | none =>
+      match s.busy with
+      | some m => some m
+      | none => s.done.head?
+
+/-- A requester can only be blocked while the thread holds the lock, and nobody can fill the slot
+while the thread holds the lock. -/
+def SigSt.wf (s : SigSt) : Prop :=
+  (s.busy = none → s.blocked = none) ∧ (s.busy.isSome = true → s.slot = none)
+
+theorem sigStep_inv (s : SigSt) (e : SigEv) (h : s.wf) :
+    (sigStep s e).wf ∧
+    (sigStep s e).newest = (match e with | .request m => some m | _ => s.newest) := by
+  obtain ⟨slot, busy, blocked, done⟩ := s
+  obtain ⟨h1, h2⟩ := h
+  cases e <;> cases slot <;> cases busy <;> cases blocked <;>
+    simp_all [sigStep, SigSt.newest, SigSt.wf]
+
+theorem sigRun_inv (evs : List SigEv) : ∀ (s : SigSt), s.wf →
+    (sigRun s evs).wf ∧ (sigRun s evs).newest = lastRequest evs s.newest := by
+  induction evs with
+  | nil => intro s h; exact ⟨h, rfl⟩
+  | cons e rest ih =>
+    intro s h
+    obtain ⟨w, n⟩ := sigStep_inv s e h
+    obtain ⟨w', n'⟩ := ih (sigStep s e) w
+    refine ⟨w', ?_⟩
+    simp only [sigRun]
+    rw [n', n]
+    cases e <;> simp [lastRequest]
+
+theorem sigQuiesce_spec (s : SigSt) (h : s.wf) :
+    (sigQuiesce s).slot = none ∧ (sigQuiesce s).busy = none ∧ (sigQuiesce s).blocked = none ∧
+    (sigQuiesce s).done.head? = s.newest ∧
+    ∃ more, (sigQuiesce s).done = more ++ s.done := by
+  obtain ⟨slot, busy, blocked, done⟩ := s
+  obtain ⟨h1, h2⟩ := h
+  cases slot <;> cases busy <;> cases blocked <;>
+    simp_all [sigQuiesce, sigRun, sigStep, SigSt.newest] <;>
+    first | exact ⟨[], rfl⟩ | exact ⟨[_], rfl⟩ | exact ⟨[_, _], rfl⟩
 
 end TrustVerif.C09
